@@ -815,7 +815,270 @@ def run_ntt(status, changed, read_src):
     emit_file(changed, "NttLoops", rel, ["TF.Model.Ntt", "TF.Model.RustStd"], ["variable {σ α : Type}\n"], texts)
 
 
+# ========================================================================================================
+# BEGIN P06 -- the remaining functions of ntt.rs: `ntt`, `intt` (wrappers), `ntt_noswap`, `unscale`
+#
+# Additional subset, field-generic code only (`field_mode`); everything else is still REFUSED:
+#   * `f(x, a, ..);` as a statement, `f` a field-generic function translated earlier in the same file whose first..n-th
+#     parameter is the `&mut [T]` slice: the slice variable is re-bound to the function's result (`Option.bind` when
+#     `f` may run out of fuel); the records `ops` / `root` are passed along
+#   * `u32::try_from(e).expect("..")` / `.unwrap()` (`_ok` twin: the value fits), `n.is_power_of_two()` (TF.isPow2),
+#     `n.checked_ilog2().unwrap_or(<literal>)`
+#   * `BFieldElement::new(e)` / `BFieldElement::from(e)` of an integer = `ops.sofNat e`, `b.inverse_or_zero()` = `ops.sinv0 b`
+#   * `vec![<BFieldElement expr>; n]` = `List.replicate n e` (typed as a fixed-length array: `push` on it is refused)
+#   * a unit-typed assignment as the last statement of a block without its `;`
+#   * `for (i, z) in v.iter().enumerate().take(m) { .. }` on an array variable `v` that the body does not assign:
+#     `for i in 0..min(m, v.len()) { let z = v[i]; .. }`
+# ========================================================================================================
+
+SLICE_FNS = {}      # rust name -> {"lname", "ptys" (source parameters only), "partial", "root", "mut_index"}
+
+_XParser0, _XEmitter0, _XFnTranslator0 = XParser, XEmitter, XFnTranslator
+
+
+class P06Parser(_XParser0):
+    def expect(self, val):
+        # `{ ..; *elem *= c }`: the last statement of a block may be a unit-typed assignment without `;` (it has the same
+        # meaning with it); nothing else of a compiling Rust program reaches `expect(";")` in front of a `}`
+        if val == ";" and self.peek() == ("op", "}"):
+            return
+        _XParser0.expect(self, val)
+
+    def parse_primary(self):
+        k, v = self.peek()
+        if k == "str":
+            self.next()
+            return ("strlit", v)
+        if k == "id" and v == "vec" and self.peek(1)[1] == "!" and self.peek(2)[1] == "[":
+            save = self.i
+            self.next(); self.next(); self.next()
+            if self.peek()[1] != "]":
+                item = self.parse_expr()
+                if self.accept(";"):
+                    cnt = self.parse_expr()
+                    self.expect("]")
+                    return ("vecrep", item, cnt)
+            self.i = save
+        return _XParser0.parse_primary(self)
+
+    def parse_stmt_hook(self, k, v, label, site):
+        if k == "id" and v in SLICE_FNS and self.peek(1)[1] == "(" and label is None:
+            e = self.parse_expr()
+            if not (e[0] == "call" and e[1] == [v]):
+                raise Unsupported("expression statement")
+            self.expect(";")
+            info = SLICE_FNS[v]
+            if len(e[2]) != len(info["ptys"]):
+                raise Unsupported(f"arity of {v}")
+            return ("callstmt", e, [e[2][info["mut_index"]]])
+        # for (i, z) in v.iter().enumerate().take(m) { .. }
+        if k == "id" and v == "for" and self.peek(1)[1] == "(":
+            pat = [self.peek(j) for j in range(1, 15)]
+            shape = [("op", "("), ("id", None), ("op", ","), ("id", None), ("op", ")"), ("id", "in"), ("id", None),
+                     ("op", "."), ("id", "iter"), ("op", "("), ("op", ")"), ("op", "."), ("id", "enumerate"), ("op", "(")]
+            if all(a[0] == b[0] and (b[1] is None or a[1] == b[1]) for a, b in zip(pat, shape)) \
+                    and self.peek(15) == ("op", ")") and self.peek(16) == ("op", ".") and self.peek(17) == ("id", "take") \
+                    and self.peek(18) == ("op", "("):
+                ivar, zvar, arr = pat[1][1], pat[3][1], pat[6][1]
+                for _ in range(19):
+                    self.next()
+                cnt = self.parse_expr()
+                self.expect(")")
+                if self.peek()[1] != "{":
+                    raise Unsupported("iterator adaptor chain")
+                body = self.parse_block()
+                self.accept(";")
+                if len({ivar, zvar, arr}) != 3 or "_" in (ivar, zvar):
+                    raise Unsupported("enumerate pattern")
+                if binds_name(body, ivar) or binds_name(body, zvar) or binds_name(body, arr):
+                    raise Unsupported("enumerate loop whose body re-binds the pattern or the array")
+                if arr in assigned_outer(body, ()) or zvar in assigned_outer(body, ()):
+                    raise Unsupported("enumerate loop whose body assigns the array or the element")
+                hi = ("p06min", cnt, ("mcall", ("path", [arr]), "len", []))
+                let = ("let", ("pid", zvar), None, ("index", ("path", [arr]), ("path", [ivar])), (site, "z"))
+                return ("for", label, ivar, ("lit", 0, "usize"), hi, False, False, [let] + body, site)
+        return _XParser0.parse_stmt_hook(self, k, v, label, site)
+
+
+class P06Emitter(_XEmitter0):
+    def emit(self, e, env, exp=None):
+        k = e[0]
+        if k == "strlit":
+            raise Unsupported("string literal")
+        if not self.field_mode:
+            return _XEmitter0.emit(self, e, env, exp)
+        if k == "p06min":
+            a, aty, aok = self.emit(e[1], env, "usize")
+            b, bty, bok = self.emit(e[2], env, "usize")
+            self.unify(aty, "usize", "take count")
+            self.unify(bty, "usize", "take count")
+            return f"(Nat.min {paren(a)} {paren(b)})", "usize", self.conj(aok, bok)
+        if k == "vecrep":
+            self.check_no_partial(e[1])
+            self.check_no_partial(e[2])
+            v, vty, vok = self.emit(e[1], env, "bfe")
+            if self.resolve(vty) != "bfe":
+                raise Unsupported("vec![x; n] of anything but BFieldElements")
+            c, cty, cok = self.emit(e[2], env, "usize")
+            self.unify(cty, "usize", "vec! length")
+            return f"(List.replicate {paren(c)} {paren(v)})", ("array", "bfe"), self.conj(vok, cok)
+        if k == "call" and e[1] in (["BFieldElement", "new"], ["BFieldElement", "from"]) and len(e[2]) == 1:
+            self.check_no_partial(e[2][0])
+            want = "u64" if e[1][1] == "new" else None
+            a, aty, aok = self.emit(e[2][0], env, want)
+            aty = self.resolve(aty)
+            if e[1][1] == "new":
+                self.unify(aty, "u64", "argument of BFieldElement::new")
+            elif aty not in ("usize", "u64", "u32"):
+                raise Unsupported(f"BFieldElement::from of {aty}")
+            return f"(ops.sofNat {paren(a)})", "bfe", aok
+        if k == "mcall":
+            _, recv, name, args = e
+            if name in ("expect", "unwrap") and recv[0] == "call" and recv[1] == ["u32", "try_from"] and len(recv[2]) == 1 \
+                    and ((name == "unwrap" and not args) or (name == "expect" and len(args) == 1 and args[0][0] == "strlit")):
+                self.check_no_partial(recv[2][0])
+                a, aty, aok = self.emit(recv[2][0], env, None)
+                aty = self.resolve(aty)
+                if aty not in INT_TYPES or aty.startswith("i"):
+                    raise Unsupported(f"u32::try_from of {aty}")
+                return a, "u32", self.conj(aok, f"decide ({a} < {p2(32)})")
+            if name == "is_power_of_two" and not args:
+                self.check_no_partial(recv)
+                a, aty, aok = self.emit(recv, env, None)
+                aty = self.resolve(aty)
+                if aty not in INT_TYPES or aty.startswith("i"):
+                    raise Unsupported(f"is_power_of_two on {aty}")
+                return f"(TF.isPow2 {paren(a)})", "bool", aok
+            if name == "unwrap_or" and len(args) == 1 and args[0][0] == "lit" and recv[0] == "mcall" \
+                    and recv[2] == "checked_ilog2" and not recv[3]:
+                self.check_no_partial(recv[1])
+                a, aty, aok = self.emit(recv[1], env, None)
+                aty = self.resolve(aty)
+                if aty not in INT_TYPES or aty.startswith("i"):
+                    raise Unsupported(f"checked_ilog2 on {aty}")
+                d, dty, _ = self.emit(args[0], env, "u32")
+                self.unify(dty, "u32", "default of unwrap_or")
+                return f"(if ({a} == 0) then {d} else Nat.log2 {paren(a)})", "u32", aok
+            if name == "inverse_or_zero" and not args:
+                try:
+                    a, aty, aok = self.emit(recv, env, None)
+                except Unsupported:
+                    a = None
+                if a is not None and self.resolve(aty) == "bfe":
+                    return f"(ops.sinv0 {paren(a)})", "bfe", aok
+        return _XEmitter0.emit(self, e, env, exp)
+
+
+class P06FnTranslator(_XFnTranslator0):
+    def seq(self, stmts, i, env, k, ctl):
+        em = self.em
+        if i < len(stmts) and stmts[i][0] == "callstmt":
+            if not em.field_mode or ctl.loops:
+                raise Unsupported("call statement (only at the top level of a field-generic function)")
+            _, e, places = stmts[i]
+            name = e[1][0]
+            info = SLICE_FNS.get(name)
+            if info is None or len(e[2]) != len(info["ptys"]):
+                raise Unsupported(f"call statement {name}")
+            if "ops" not in env or (info["root"] and "root" not in env):
+                raise Unsupported(f"call of {name} without the operation records")
+            target = places[0]
+            if not (target[0] == "path" and len(target[1]) == 1 and target[1][0] in env and env[target[1][0]][0] is not None):
+                raise Unsupported("`&mut` argument that is not a variable")
+            tname = target[1][0]
+            parts = []
+            for j, (x, t) in enumerate(zip(e[2], info["ptys"])):
+                em.check_no_partial(x)
+                tt, ty, ok = em.emit(x, env, t)
+                if em.resolve(em.unify(ty, t, f"argument of {name}")) != em.resolve(t):
+                    raise Unsupported(f"argument type of {name}")
+                parts.append((tt, ok))
+            argstr = " ".join(["ops"] + (["root"] if info["root"] else []) + [paren(p[0]) for p in parts])
+            call = f"{info['lname']} {argstr}"
+            cok = self.conj(*[p[1] for p in parts], f"({info['lname']}_ok {argstr})")
+            ln, vty = env[tname][0], env[tname][1]
+            env2 = dict(env)
+            env2[tname] = (ln, vty)
+            bt, bok = self.seq(stmts, i + 1, env2, k, ctl)
+            if info["partial"]:
+                return self.match_option(call, cok, ln, bt, bok)
+            return self.let_(ln, call, bt), self.let_ok(ln, call, cok, bok)
+        return _XFnTranslator0.seq(self, stmts, i, env, k, ctl)
+
+
+XParser, XEmitter, XFnTranslator = P06Parser, P06Emitter, P06FnTranslator
+
+NTT_FUNCTIONS += [
+    # `while (1 << logn) < len` and `while m < n { .. m *= 2 }` evaluate their heads at most 65 times
+    ("ntt_noswap", "ntt_noswap", DEFAULT_FUEL, True, True),
+    ("ntt_unscale", "unscale", DEFAULT_FUEL, True, False),
+    ("ntt_ntt", "ntt", DEFAULT_FUEL, True, True),
+    ("ntt_intt", "intt", DEFAULT_FUEL, True, True),
+]
+
+_run_ntt0 = run_ntt
+
+
+def run_ntt(status, changed, read_src):
+    """as the original `run_ntt`; in addition every field-generic function is registered in SLICE_FNS so that the
+    wrappers translated later can call it as a statement"""
+    rel = "twenty-first/src/math/ntt.rs"
+    src = read_src(rel)
+    if src is None:
+        return _run_ntt0(status, changed, read_src)
+    cut = src.find("#[cfg(test)]")
+    if cut >= 0:
+        src = src[:cut]
+    SLICE_FNS.clear()
+    tfns, pfns = {}, {}
+    texts = []
+    for ln, rn, fuel, generic, root in NTT_FUNCTIONS:
+        extra = ([("ops", "opsrec")] if generic else []) + ([("root", "rootfn")] if root else [])
+        try:
+            text, params, rty, partial, _ = translate_fn_x(src, rn, ln, rel, tfns, pfns, {}, fuel, field_mode=True,
+                                                           extra_params=extra)
+        except Exception as ex:
+            refuse(status, ln, ex)
+            continue
+        texts.append(text)
+        if not generic:
+            (pfns if partial else tfns)[rn] = (ln, [t for _, t in params], rty)
+        else:
+            register_slice_fn(src, rn, ln, params, partial, root, pfns)
+        record(status, ln, rel, text, fuel)
+    SLICE_FNS.clear()
+    emit_file(changed, "NttLoops", rel, ["TF.Model.Ntt", "TF.Model.RustStd"], ["variable {σ α : Type}\n"], texts)
+
+
+def register_slice_fn(src, rn, ln, params, partial, root, pfns):
+    """make the field-generic function `rn` callable as a statement `rn(x, ..);` by the functions translated after it"""
+    try:
+        ptext, _, _ = find_fn(src, rn, None)
+        probe = XEmitter({}, {}, {}, rn, {}, True)
+        sparams, _, mut_param = parse_params_x(ptext, probe, None)
+    except Exception:
+        return
+    if mut_param is None:
+        return
+    SLICE_FNS[rn] = {"lname": ln, "ptys": [t for _, t in sparams], "partial": partial, "root": root,
+                     "mut_index": [n for n, _ in sparams].index(mut_param)}
+    if partial:
+        # seen by `FnTranslator.translate` (a caller may run out of fuel, too); the sentinel type makes every use *inside an
+        # expression* an arity error, i.e. a refusal
+        pfns[rn] = (ln, ["opsrec"] + [t for _, t in sparams], None)
+
+# END P06
+# ========================================================================================================
+
+
 def run(status, changed, read_src):
     """called at the end of rs2lean_loops.run"""
     run_u32s(status, changed, read_src)
     run_ntt(status, changed, read_src)
+    # BEGIN P06-C18: the loops of lattice.rs (tools/rs2lean_lattice.py -> TF/Gen/LatticeLoops.lean)
+    try:
+        import rs2lean_lattice
+        rs2lean_lattice.run(status, changed, read_src)
+    except Exception as ex:      # a crash is a refusal, never a guess
+        refuse(status, "lattice loops", ex)
+    # END P06-C18
